@@ -229,3 +229,106 @@ Proof.
   - vm_compute. reflexivity.
   - vm_compute. reflexivity.
 Qed.
+
+(** * the memoised check of the correspondence run is the plain one *)
+Section Memo.
+  Variable hash : bytes -> bytes.
+
+  Definition memo_ok (p : emsg * option bytes) : Prop := snd p = eth_hash hash (fst p).
+
+  Lemma scan_memo_correct l : Forall memo_ok l -> forall i h,
+    scan_memo i l h = unwrap_scan hash i (map fst l) h.
+  Proof.
+    induction 1 as [|[m a] r Hm Hr IH]; intros i h; [reflexivity|].
+    unfold memo_ok in Hm. cbn [fst snd] in Hm. subst a.
+    cbn [map fst scan_memo unwrap_scan]. unfold eth_hash. destruct (as_tx m) as [tx|]; cbn [option_map].
+    - destruct (bytes_eq_dec (tx_hash hash tx) h); [reflexivity|]. rewrite IH. reflexivity.
+    - rewrite IH. reflexivity.
+  Qed.
+
+  Lemma map_update_nth {A B} (g : A -> B) (f : A -> A) (f' : B -> B) :
+    (forall x, g (f x) = f' (g x)) -> forall n l, map g (update_nth f n l) = update_nth f' n (map g l).
+  Proof.
+    intros Hc n l. revert n. induction l as [|x r IH]; intros [|n]; cbn; try reflexivity.
+    - rewrite Hc. reflexivity.
+    - rewrite IH. reflexivity.
+  Qed.
+
+  Lemma Forall_update_nth {A} (P : A -> Prop) (f : A -> A) :
+    (forall x, P x -> P (f x)) -> forall n l, Forall P l -> Forall P (update_nth f n l).
+  Proof.
+    intros Hf n l. revert n. induction l as [|x r IH]; intros [|n] H; cbn; try assumption;
+      inversion H; subst; constructor; auto.
+  Qed.
+
+  Lemma forge_hashes_memo_ok fs : forall l, Forall memo_ok l ->
+    Forall memo_ok (forge_hashes_memo fs l) /\ map fst (forge_hashes_memo fs l) = forge_hashes fs (map fst l).
+  Proof.
+    induction fs as [|f fs IH]; intros l Hl; [split; [assumption|reflexivity]|].
+    unfold forge_hashes_memo, forge_hashes. cbn [fold_left].
+    match goal with |- context [update_nth ?F (fst f) l] => set (F1 := F) end.
+    assert (H1 : Forall memo_ok (update_nth F1 (fst f) l)).
+    { apply Forall_update_nth; [|assumption]. intros [m a] Hm. exact Hm. }
+    destruct (IH _ H1) as [A B]. split; [exact A|].
+    unfold forge_hashes_memo, forge_hashes in B. rewrite B. f_equal.
+    apply map_update_nth. intros [m a]. reflexivity.
+  Qed.
+
+  Lemma forge_froms_memo_ok fs : forall l, Forall memo_ok l ->
+    Forall memo_ok (forge_froms_memo fs l) /\ map fst (forge_froms_memo fs l) = forge_froms fs (map fst l).
+  Proof.
+    induction fs as [|f fs IH]; intros l Hl; [split; [assumption|reflexivity]|].
+    unfold forge_froms_memo, forge_froms. cbn [fold_left].
+    match goal with |- context [update_nth ?F (fst f) l] => set (F1 := F) end.
+    assert (H1 : Forall memo_ok (update_nth F1 (fst f) l)).
+    { apply Forall_update_nth; [|assumption]. intros [m a] Hm. exact Hm. }
+    destruct (IH _ H1) as [A B]. split; [exact A|].
+    unfold forge_froms_memo, forge_froms in B. rewrite B. f_equal.
+    apply map_update_nth. intros [m a]. reflexivity.
+  Qed.
+
+  Lemma all_some_map {A B} (g : A -> B) (l : list (option A)) :
+    all_some (map (option_map g) l) = option_map (map g) (all_some l).
+  Proof.
+    induction l as [|[x|] r IH]; cbn; [reflexivity| |reflexivity].
+    rewrite IH. destruct (all_some r); reflexivity.
+  Qed.
+
+  Lemma all_some_Forall {A} (P : A -> Prop) (l : list (option A)) t :
+    Forall (fun o => match o with Some x => P x | None => True end) l -> all_some l = Some t -> Forall P t.
+  Proof.
+    revert t. induction l as [|[x|] r IH]; intros t H E; cbn in E.
+    - injection E as <-. constructor.
+    - destruct (all_some r) as [t'|] eqn:Er; [|discriminate]. injection E as <-.
+      inversion H; subst. constructor; [assumption|]. apply IH; [assumption|reflexivity].
+    - discriminate.
+  Qed.
+
+  Theorem check_lookup_memo_eq (wp : list (option emsg)) lk :
+    check_lookup_memo (map (option_map (annot hash)) wp) lk = check_lookup hash wp lk.
+  Proof.
+    unfold check_lookup_memo, check_lookup.
+    set (sel := map (fun i => nth i wp None) (lk_env lk)).
+    assert (Hsel : map (fun i => nth i (map (option_map (annot hash)) wp) None) (lk_env lk)
+                   = map (option_map (annot hash)) sel).
+    { unfold sel. rewrite map_map. apply map_ext. intros i.
+      exact (map_nth (option_map (annot hash)) wp None i). }
+    rewrite Hsel, all_some_map. destruct (all_some sel) as [msgs0|]; cbn [option_map]; [|reflexivity].
+    assert (H0 : Forall memo_ok (map (annot hash) msgs0)).
+    { apply Forall_forall. intros p Hp. apply in_map_iff in Hp. destruct Hp as (m & <- & _). reflexivity. }
+    destruct (forge_hashes_memo_ok (lk_forge_hash lk) _ H0) as [H1 E1].
+    destruct (forge_froms_memo_ok (lk_forge_from lk) _ H1) as [H2 E2].
+    rewrite (scan_memo_correct _ H2), E2, E1, map_map. cbn [annot fst]. rewrite map_id. reflexivity.
+  Qed.
+
+End Memo.
+
+Lemma forallb_ext' {A} (f g : A -> bool) l : (forall x, f x = g x) -> forallb f l = forallb g l.
+Proof. intros H. induction l as [|x r IH]; [reflexivity|]. cbn. rewrite H, IH. reflexivity. Qed.
+
+Theorem check_unwrap_case_memo_eq c : check_unwrap_case_memo c = check_unwrap_case c.
+Proof.
+  unfold check_unwrap_case_memo, check_unwrap_case.
+  rewrite <- (map_map (from_eth_tx (table_hash (uc_table c)) no_csum) (option_map (annot (table_hash (uc_table c))))).
+  apply forallb_ext'. intros lk. apply check_lookup_memo_eq.
+Qed.
